@@ -1,4 +1,5 @@
 import GambitV.Lemmas.Indexing
+import GambitV.Lemmas.Window
 
 /-!
 # C20 — advanced indexing selects what a plain list would select, on both storage layouts
@@ -171,6 +172,14 @@ repeated bounds). -/
 theorem ofList_bounds_getD (sigs : List (List Nat)) (i : Nat) (h : i ≤ sigs.length) :
     (Concat.ofList sigs).bounds.getD i 0 = (sigs.take i).flatten.length := by
   rw [ofList_bounds, prefixSums_getD 0 sigs i h, Nat.zero_add]
+
+/-- A window of a larger values array (`SignatureArray.from_arrays` with bounds that neither start at 0 nor end at `len(values)`) denotes
+exactly the signatures it was cut around, whatever surrounds them: length, every element, the whole list. -/
+theorem window_refines_list (padL padR : List Nat) (sigs : List (List Nat)) :
+    (Concat.window padL padR sigs).len = sigs.length ∧
+    (∀ i, (Concat.window padL padR sigs).get i = sigs.getD i []) ∧
+    (Concat.window padL padR sigs).toList = sigs :=
+  ⟨window_len padL padR sigs, window_get padL padR sigs, window_toList padL padR sigs⟩
 
 theorem ofList_WF (sigs : List (List Nat)) : (Concat.ofList sigs).WF := ofList_wf sigs
 
